@@ -289,11 +289,18 @@ impl<'a> Parser<'a> {
             "null" => Ok(Value::Null),
             "true" => Ok(Value::Bool(true)),
             "false" => Ok(Value::Bool(false)),
-            number => Ok(Value::Number(
-                number
-                    .parse()
-                    .map_err(|_| self.traceback(ParseError::InvalidToken))?,
-            )),
+            number => {
+                quiet_assert(
+                    is_number(number),
+                    self.traceback(ParseError::InvalidToken),
+                )?;
+
+                Ok(Value::Number(
+                    number
+                        .parse()
+                        .map_err(|_| self.traceback(ParseError::InvalidToken))?,
+                ))
+            }
         }
     }
 
@@ -335,6 +342,30 @@ fn quiet_assert(condition: bool, error: TracebackError) -> Result<(), TracebackE
     } else {
         Err(error)
     }
+}
+
+/// Check whether a literal is a number according to the specification, which is stricter than Rust's float syntax.
+/// For example, `+1`, `01`, `.5`, `1.`, `NaN` and `inf` are not JSON numbers.
+fn is_number(s: &str) -> bool {
+    let s = s.strip_prefix('-').unwrap_or(s);
+    let digits = |s: &str| !s.is_empty() && s.bytes().all(|b| b.is_ascii_digit());
+
+    let (mantissa, exponent) = match s.find(|c| c == 'e' || c == 'E') {
+        Some(i) => (&s[..i], Some(&s[i + 1..])),
+        None => (s, None),
+    };
+
+    let (int, frac) = match mantissa.find('.') {
+        Some(i) => (&mantissa[..i], Some(&mantissa[i + 1..])),
+        None => (mantissa, None),
+    };
+
+    digits(int)
+        && (int == "0" || !int.starts_with('0'))
+        && frac.map_or(true, digits)
+        && exponent.map_or(true, |e| {
+            digits(e.strip_prefix(|c| c == '+' || c == '-').unwrap_or(e))
+        })
 }
 
 /// Check whether a character is whitespace according to the specification.
